@@ -13,7 +13,7 @@ def run(ctx):
         "every lru_cache function and cached property reads only its key, stores only into fresh objects or constant cache "
         "keys and calls no impure library function; (IM5) cache_configure re-wraps the same functions; (IM6) arguments are "
         "never mutated; (IM7) no bool can alias an int in an untyped cache key; (IM8) no module-level container is "
-        "mutated. Not decided: purity of idna / multidict / propcache internals.")
+        "mutated. (IM14) an accessor whose entry a co-filling helper writes returns exactly that entry, so the read order of sibling accessors decides nothing. Not decided: purity of idna / multidict / propcache internals.")
     immut.im1_im2(ctx)
     immut.im3(ctx)
     immut.im4(ctx)
@@ -25,3 +25,4 @@ def run(ctx):
     immut.im11(ctx)
     immut.im13(ctx)     # nobody writes into the cache of a URL it did not create (shared, memoised objects)
     immut.im12(ctx)
+    immut.im14(ctx)     # a cache key that a helper co-fills has one value, whichever accessor is read first
